@@ -1,9 +1,250 @@
-From Coq Require Import List ZArith Bool Arith QArith.
+(* Props/C09.v — pickling round-trips a lattice to an observationally equivalent lattice;
+   equality is total, reflexive, symmetric and sensitive.  Theorems about the model
+   coq/Model/Pickle.v of Lattice.__getstate__/__setstate__/__eq__/__ne__ (lattice.py:222-269).
+
+   NOT covered by a theorem (S/K in harness/c09.py only): "identical plaquettes and adjacency tables" and
+   "same results under every other koala operation" when the float32 rounding moves a position (they are
+   functions of the three arrays, so C09_roundtrip_exact_on_float32 covers lattices whose positions are
+   float32 numbers); pickle's own transport of the state for protocols 2..5; NaN / inf positions;
+   "constructing the same lattice twice yields the same plaquette order" (trivial for a function). *)
+From Coq Require Import List ZArith Bool Arith QArith Qabs.
 From Koala Require Import Model.Pickle Gen.PickleGen Proofs.PickleFacts.
 Import ListNotations.
 Open Scope Z_scope.
 
-(* clause "a lattice restored from the legacy dictionary-style state is [the dict's lattice]" *)
+(* ---------- the round trip -------------------------------------------------------------- *)
+
+(* clause "pickling and unpickling yields a lattice with identical edges and crossings (positions to single
+   precision)": for every lattice with fewer than 2^64 vertices, int64-representable indices, crossings in
+   [-128,127] and positions inside the float32 range, setstate (getstate L) exists, has the same index and
+   crossing VALUES (in int64 again), positions = the float32 rounding, and nothing cached. *)
+Theorem C09_roundtrip_values : forall L,
+  wf_lat L = true ->
+  n_vertices L <= dt_max U64 ->
+  forallb (in_range2 I64) (l_idx L) = true ->
+  forallb (in_range2 I8) (l_cross L) = true ->
+  existsb overflows2 (l_pos L) = false ->
+  exists R, roundtrip L = Some R /\
+    l_idx R = l_idx L /\ l_cross R = l_cross L /\ l_pos R = map round32_2 (l_pos L) /\
+    l_pos_dt R = F32 /\ l_idx_dt R = I64 /\ l_cross_dt R = I64 /\ l_cache R = fresh_cache.
+Proof. exact roundtrip_values_spec. Qed.
+Print Assumptions C09_roundtrip_values.
+
+(* the hypotheses above are exactly the conditions under which pickling succeeds: it fails only for > 2^64 - 1
+   vertices (ValueError), a crossing outside int8 (AssertionError — never a silent wrap) or a position that
+   overflows float32 *)
+Theorem C09_roundtrip_fails_only_when : forall L,
+  roundtrip L = None <->
+  (dt_max U64 < n_vertices L \/ forallb (in_range2 I8) (l_cross L) = false \/ existsb overflows2 (l_pos L) = true).
+Proof. exact roundtrip_none_iff. Qed.
+Print Assumptions C09_roundtrip_fails_only_when.
+
+Theorem C09_getstate_refuses_wide_crossing : forall L,
+  n_vertices L <= dt_max U64 -> forallb (in_range2 I8) (l_cross L) = false -> getstate L = GSCrossingRange.
+Proof. exact getstate_crossing_range. Qed.
+Print Assumptions C09_getstate_refuses_wide_crossing.
+
+(* clause "at any point of its life, before or after plaquettes and adjacency were computed": the pickled
+   state does not depend on which cached attributes are populated *)
+Theorem C09_getstate_cache_independent : forall c L, getstate (with_cache c L) = getstate L.
+Proof. exact getstate_cache_independent. Qed.
+Print Assumptions C09_getstate_cache_independent.
+
+(* quantifier "crossing the 8/16/32-bit index thresholds at 255/256 and 65535/65536": the index dtype *)
+Theorem C09_index_dtype_thresholds : forall n,
+  select_index_dtype n =
+    if n <=? 255 then Some U8 else if n <=? 65535 then Some U16
+    else if n <=? 4294967295 then Some U32 else if n <=? 18446744073709551615 then Some U64 else None.
+Proof. exact select_index_dtype_thresholds. Qed.
+Print Assumptions C09_index_dtype_thresholds.
+
+(* the dtype loop, the check_fits test and the cast dtypes of the model are the ones translated from
+   today's source by translate/pickle_dtype.py *)
+Theorem C09_dtype_rule_is_source :
+  gen_index_dtype_candidates = index_dtype_candidates /\
+  (forall n d, gen_fits n d = fits n d) /\
+  (forall e mn mx d, gen_check_fits e mn mx d = (e || check_fits_test mn mx d)) /\
+  gen_position_dtype = F32 /\ gen_crossing_dtype = crossing_dtype /\
+  gen_restored_index_dtype = I64 /\ gen_restored_crossing_dtype = I64.
+Proof. exact (conj gen_candidates_eq (conj gen_fits_eq (conj gen_check_fits_eq gen_dtypes_eq))). Qed.
+Print Assumptions C09_dtype_rule_is_source.
+
+(* "positions to single precision": the stored position is within half a unit in the last place, i.e. a
+   relative error of at most 2^-24 for |x| >= 2^-126, and an absolute error of at most 2^-23 for |x| <= 2 *)
+Theorem C09_float32_relative_error : forall x : Q,
+  (Qpow2 (-126) <= Qabs x)%Q -> (Qabs (round32 x - x) <= Qpow2 (-24) * Qabs x)%Q.
+Proof. exact round32_rel_err. Qed.
+Print Assumptions C09_float32_relative_error.
+
+Theorem C09_float32_error_le2 : forall x : Q,
+  (Qabs x <= 2)%Q -> (Qabs (round32 x - x) <= Qpow2 (-23))%Q.
+Proof. exact round32_err_le2. Qed.
+Print Assumptions C09_float32_error_le2.
+
+(* clause "yields a lattice that compares equal": for positions in [-1,2]^2 and 20000 * V <= 2^46
+   (V <= 3 518 437 208; the arithmetic condition 2 * (2^-23)^2 <= (1/(100 sqrt V))^2), both ways, and != is False *)
+Theorem C09_roundtrip_eq : forall L R,
+  wf_lat L = true ->
+  20000 * n_vertices L <= 2 ^ 46 ->
+  (forall p, In p (l_pos L) -> (-1 <= fst p <= 2)%Q /\ (-1 <= snd p <= 2)%Q) ->
+  roundtrip L = Some R ->
+  lat_eq L R = Some true /\ lat_eq R L = Some true /\
+  py_ne L (PyLattice R) = Some false /\ py_ne R (PyLattice L) = Some false.
+Proof. exact roundtrip_eq_spec. Qed.
+Print Assumptions C09_roundtrip_eq.
+
+(* the same for every box [-2^k, 2^k]^2, k >= 0, under 20000 * V * 4^k <= 2^48 *)
+Theorem C09_roundtrip_eq_pow2 : forall L R k,
+  wf_lat L = true -> 0 <= k ->
+  20000 * n_vertices L * 4 ^ k <= 2 ^ 48 ->
+  (forall p, In p (l_pos L) -> (Qabs (fst p) <= Qpow2 k)%Q /\ (Qabs (snd p) <= Qpow2 k)%Q) ->
+  roundtrip L = Some R ->
+  lat_eq L R = Some true /\ lat_eq R L = Some true.
+Proof. exact roundtrip_eq_pow2. Qed.
+Print Assumptions C09_roundtrip_eq_pow2.
+
+(* the rounding is the identity on float32 numbers: every m * 2^e with |m| < 2^24, e >= -149 *)
+Theorem C09_float32_numbers_fixed : forall m e : Z, Z.abs m < 2 ^ 24 -> -149 <= e ->
+  (round32 (inject_Z m * Qpow2 e) == inject_Z m * Qpow2 e)%Q.
+Proof. exact round32_fixed. Qed.
+Print Assumptions C09_float32_numbers_fixed.
+
+(* clause "same results under every other operation", the part a theorem can reach: if the positions are
+   float32 numbers already, the restored arrays are numerically the original arrays (so every function of
+   them agrees) *)
+Theorem C09_roundtrip_exact_on_float32 : forall L R,
+  wf_lat L = true -> n_vertices L <= dt_max I64 -> roundtrip L = Some R ->
+  (forall p, In p (l_pos L) -> qpair_eq (round32_2 p) p) ->
+  Forall2 qpair_eq (l_pos R) (l_pos L) /\ l_idx R = l_idx L /\ l_cross R = l_cross L.
+Proof. exact roundtrip_exact_on_float32_spec. Qed.
+Print Assumptions C09_roundtrip_exact_on_float32.
+
+(* ---------- legacy dict state ------------------------------------------------------------ *)
+
+(* clause "a lattice restored from the legacy dictionary-style state is likewise equal to its original" *)
 Theorem C09_legacy_dict_state : forall L, setstate (DictState L) = L.
 Proof. exact setstate_dict. Qed.
 Print Assumptions C09_legacy_dict_state.
+
+Theorem C09_legacy_dict_state_eq : forall L, length (l_cross L) = length (l_idx L) ->
+  lat_eq L (setstate (DictState L)) = Some true /\ lat_eq (setstate (DictState L)) L = Some true.
+Proof. exact legacy_dict_eq. Qed.
+Print Assumptions C09_legacy_dict_state_eq.
+
+(* ---------- equality ---------------------------------------------------------------------- *)
+
+(* clause "equality is total (returns a boolean, never raises, for lattices of any two sizes and for
+   non-lattices)"; None models a raised exception.  The only requirement is one crossing row per edge. *)
+Theorem C09_eq_total : forall A o,
+  length (l_cross A) = length (l_idx A) ->
+  (forall B, o = PyLattice B -> length (l_cross B) = length (l_idx B)) ->
+  exists b, py_eq A o = Some b /\ py_ne A o = Some (negb b).
+Proof. exact py_eq_total. Qed.
+Print Assumptions C09_eq_total.
+
+Theorem C09_eq_nonlattice : forall A, py_eq A PyOther = Some false /\ py_ne A PyOther = Some true.
+Proof. exact py_eq_other. Qed.
+Print Assumptions C09_eq_nonlattice.
+
+(* what fix 8051f8a repaired: the same comparison without the shape test raises on different sizes *)
+Theorem C09_eq_without_shape_test_total_refuted :
+  exists A B, wf_lat A = true /\ wf_lat B = true /\ lat_eq_noshape A B = None.
+Proof. exact lat_eq_noshape_total_refuted. Qed.
+Print Assumptions C09_eq_without_shape_test_total_refuted.
+
+(* clause "reflexive" *)
+Theorem C09_eq_refl : forall A, length (l_cross A) = length (l_idx A) -> lat_eq A A = Some true.
+Proof. exact lat_eq_refl. Qed.
+Print Assumptions C09_eq_refl.
+
+(* clause "symmetric": unconditionally, including the raising cases *)
+Theorem C09_eq_sym : forall A B, py_eq A (PyLattice B) = py_eq B (PyLattice A).
+Proof. exact py_eq_sym. Qed.
+Print Assumptions C09_eq_sym.
+
+(* clause "detects any changed edge, crossing or vertex displaced by more than a hundredth of the mean
+   spacing": exact characterisation.  [within nv a b] is |a - b|^2 * 10000 * nv <= 1, i.e.
+   |a - b| <= (1 / sqrt nv) / 100 in Euclidean norm. *)
+Theorem C09_eq_true_iff : forall A B,
+  length (l_cross A) = length (l_idx A) -> length (l_cross B) = length (l_idx B) ->
+  (lat_eq A B = Some true <->
+   length (l_pos A) = length (l_pos B) /\ l_idx A = l_idx B /\ l_cross A = l_cross B /\
+   Forall2 (within (n_vertices A)) (l_pos A) (l_pos B)).
+Proof. exact lat_eq_true_iff. Qed.
+Print Assumptions C09_eq_true_iff.
+
+Theorem C09_eq_detects_edge : forall A B,
+  length (l_cross A) = length (l_idx A) -> length (l_cross B) = length (l_idx B) ->
+  l_idx A <> l_idx B -> lat_eq A B = Some false.
+Proof. exact lat_eq_detects_edge. Qed.
+Print Assumptions C09_eq_detects_edge.
+
+Theorem C09_eq_detects_crossing : forall A B,
+  length (l_cross A) = length (l_idx A) -> length (l_cross B) = length (l_idx B) ->
+  l_cross A <> l_cross B -> lat_eq A B = Some false.
+Proof. exact lat_eq_detects_crossing. Qed.
+Print Assumptions C09_eq_detects_crossing.
+
+Theorem C09_eq_detects_size : forall A B,
+  length (l_cross A) = length (l_idx A) -> length (l_cross B) = length (l_idx B) ->
+  (length (l_pos A) <> length (l_pos B) \/ length (l_idx A) <> length (l_idx B)) -> lat_eq A B = Some false.
+Proof. exact lat_eq_detects_size. Qed.
+Print Assumptions C09_eq_detects_size.
+
+(* any vertex i displaced by MORE than (1/sqrt V)/100 (Euclidean) makes the lattices unequal ... *)
+Theorem C09_eq_detects_displacement : forall A B i,
+  length (l_cross A) = length (l_idx A) -> length (l_cross B) = length (l_idx B) ->
+  (i < length (l_pos A))%nat -> (i < length (l_pos B))%nat ->
+  ~ within (n_vertices A) (nth i (l_pos A) (0, 0)%Q) (nth i (l_pos B) (0, 0)%Q) ->
+  lat_eq A B = Some false.
+Proof. exact lat_eq_detects_displacement. Qed.
+Print Assumptions C09_eq_detects_displacement.
+
+(* ... and that threshold is exact: with the same edges and crossings and every vertex within it, equal *)
+Theorem C09_eq_no_false_alarm : forall A B,
+  length (l_cross A) = length (l_idx A) -> length (l_cross B) = length (l_idx B) ->
+  length (l_pos A) = length (l_pos B) -> l_idx A = l_idx B -> l_cross A = l_cross B ->
+  (forall i, (i < length (l_pos A))%nat ->
+     within (n_vertices A) (nth i (l_pos A) (0, 0)%Q) (nth i (l_pos B) (0, 0)%Q)) ->
+  lat_eq A B = Some true.
+Proof. exact lat_eq_no_false_alarm. Qed.
+Print Assumptions C09_eq_no_false_alarm.
+
+(* ---------- the hypotheses are satisfiable on a non-trivial instance ------------------------ *)
+(* four vertices (none of whose coordinates is a float32 number), four edges, two of them crossing *)
+Definition ex_lat : lat :=
+  mkLat [(1 # 3, 1 # 10); (2 # 3, 1 # 7); (5 # 6, 9 # 10); (1 # 6, 3 # 4)]%Q F64
+        [(0, 1); (1, 2); (2, 3); (3, 0)] I64 [(0, 0); (0, 0); (0, 1); (-1, 0)] I64
+        (mkCache true true false true).
+
+Example C09_roundtrip_values_nonvacuous :
+  wf_lat ex_lat = true /\ n_vertices ex_lat <= dt_max U64 /\
+  forallb (in_range2 I64) (l_idx ex_lat) = true /\ forallb (in_range2 I8) (l_cross ex_lat) = true /\
+  existsb overflows2 (l_pos ex_lat) = false /\
+  20000 * n_vertices ex_lat <= 2 ^ 46 /\
+  round32 (1 # 3) = (11184811 # 33554432)%Q /\
+  (exists R, roundtrip ex_lat = Some R /\ l_pos R <> l_pos ex_lat /\ lat_eq ex_lat R = Some true).
+Proof.
+  repeat split; try (vm_compute; reflexivity); try (vm_compute; discriminate).
+  eexists. split; [vm_compute; reflexivity|]. split; [vm_compute; discriminate | vm_compute; reflexivity].
+Qed.
+
+(* a displaced copy: vertex 0 moved by 3/500 in x; the tolerance is 1/200, so it is detected, and a move by
+   1/250 is not *)
+Example C09_eq_detects_displacement_nonvacuous :
+  let B d := mkLat [((1 # 3) + d, 1 # 10); (2 # 3, 1 # 7); (5 # 6, 9 # 10); (1 # 6, 3 # 4)]%Q F64
+                   (l_idx ex_lat) I64 (l_cross ex_lat) I64 fresh_cache in
+  lat_eq ex_lat (B (3 # 500)%Q) = Some false /\ lat_eq (B (3 # 500)%Q) ex_lat = Some false /\
+  lat_eq ex_lat (B (1 # 250)%Q) = Some true /\
+  ~ within (n_vertices ex_lat) (nth 0 (l_pos ex_lat) (0, 0)%Q) (nth 0 (l_pos (B (3 # 500)%Q)) (0, 0)%Q).
+Proof. repeat split; try (vm_compute; reflexivity). vm_compute. intros H. apply H. reflexivity. Qed.
+
+(* a lattice whose positions are float32 numbers (multiples of 1/8) *)
+Example C09_roundtrip_exact_on_float32_nonvacuous :
+  let L := mkLat [(1 # 8, 3 # 8); (5 # 8, 1 # 4); (7 # 8, 3 # 4)]%Q F64 [(0, 1); (1, 2); (2, 0)] I64
+                 [(0, 0); (0, 0); (1, 0)] I64 fresh_cache in
+  wf_lat L = true /\ roundtrip L <> None /\ (forall p, In p (l_pos L) -> qpair_eq (round32_2 p) p).
+Proof.
+  repeat split; try (vm_compute; reflexivity); try (vm_compute; discriminate);
+    simpl in H; repeat (destruct H as [<-|H]; [vm_compute; reflexivity|]); destruct H.
+Qed.
